@@ -573,6 +573,15 @@ pub open spec fn attrs_wf(m: Map<String, IppAttribute>) -> bool {
         && wf16(aval(m[k].sval())) && size_ok(aval(m[k].sval()))
 }
 
+/// every value can be encoded without arithmetic overflow (sums of string lengths fit a usize)
+pub open spec fn attrs_sizes(m: Map<String, IppAttribute>) -> bool {
+    forall|k: String| #[trigger] m.contains_key(k) ==> size_ok(aval(m[k].sval()))
+}
+
+pub open spec fn groups_sizes(gs: Seq<IppAttributeGroup>) -> bool {
+    forall|i: int| 0 <= i < gs.len() ==> attrs_sizes((#[trigger] gs[i]).sattrs())
+}
+
 pub open spec fn groups_wf(gs: Seq<IppAttributeGroup>) -> bool {
     forall|i: int| 0 <= i < gs.len() ==> attrs_wf((#[trigger] gs[i]).sattrs())
 }
